@@ -60,6 +60,11 @@ def value_of(cls, tick, budget):
         return tag + "L" * int((budget or 4096) * 0.6)
     if cls == "X":
         return tag + "X" * ((budget or 4096) + 64)
+    if cls in ("A", "AX"):  # weak-referenceable results (numpy arrays) the caller keeps holding: small / oversize
+        import numpy as np
+
+        n = 40 if cls == "A" else (budget or 4096) + 64
+        return np.frombuffer((tag + "A" * n).encode(), dtype=np.int8).copy()
     if cls == "N":
         return None
     if cls == "E":
@@ -71,6 +76,17 @@ def value_of(cls, tick, budget):
 
         return InMemoryPartition({"a": tag + "a", "b": "same-bytes"})
     raise HarnessError("unknown value class %r" % cls)
+
+
+def cls_is_array(v):
+    return type(v).__name__ == "ndarray"
+
+
+def short(v):
+    """Short text of a cached value for the canonical form (write tick visible)."""
+    if cls_is_array(v):
+        return v.tobytes()[:12].decode("ascii", "replace")
+    return repr(v)[:12]
 
 
 class DictStore:
@@ -113,6 +129,7 @@ class StoreRun:
         self.log = []
         self.written_blobs = {}  # for C07: ki -> (content_key, bytes at creation)
         self.faulted = False
+        self.held = {}  # ki -> weak-referenceable result object the "caller" still holds
         if self.kind == "fs":
             rm(root)
             os.makedirs(root)
@@ -158,6 +175,8 @@ class StoreRun:
             if list(got.list_keys()) != list(want.list_keys()):
                 return False
             return all(got.get(k) == want.get(k) for k in want.list_keys())
+        if cls_is_array(want):
+            return cls_is_array(got) and got.dtype == want.dtype and got.shape == want.shape and bool((got == want).all())
         return type(got) is type(want) and got == want
 
     def check_memento(self, got, ki):
@@ -214,6 +233,9 @@ class StoreRun:
 
             stored = MementoException.from_exception(val) if isinstance(val, Exception) else val
             be.memoize(override, mem, stored)
+            self.held.pop(ki, None)
+            if cls_is_array(val):
+                self.held[ki] = val
             self.mem[ki] = mem
             m.memoize(ki, self.tick, cls)
             if self.kind == "fs" and mem.content_key is not None:
@@ -525,8 +547,8 @@ class StoreRun:
         c = getattr(self.be, "_memory_cache", None)
         if c is not None:
             cache = (tuple(c.lru_deque), tuple(sorted((k, e.obj_size, e.has_value, e.memento.correlation_id,
-                                                        repr(e.value)[:12] if e.has_value else None) for k, e in c.cache.items())),
-                     c.memory_usage)
+                                                        short(e.value) if e.has_value else None) for k, e in c.cache.items())),
+                     c.memory_usage, tuple(sorted(getattr(c, "refs", {}).keys())))
             ticks.update(int(t) for t in _TICK_RE.findall(repr(cache).encode()))
         for e in self.model.d.values():
             ticks.add(e["tick"])
